@@ -7,12 +7,9 @@ base=$(git -C /repo rev-parse HEAD)
 for c in $(git -C "/work/$id/repo" log --reverse --format=%H HEAD --not $(git -C /repo rev-parse HEAD) 2>/dev/null); do
   subj=$(git -C "/work/$id/repo" log -1 --format=%s "$c")
   case "$subj" in
-    fix:*) git -C /repo cherry-pick "$c" >/dev/null
-           # builders sometimes commit test-run litter with their fix: a fix commit touches src/ only
-           git -C /repo show --name-only --format= HEAD | grep -v '^src/' | while IFS= read -r f; do
-             git -C /repo rm -q --cached -- "$f"; rm -f -- "/repo/$f"; echo "  (dropped litter $f)"; done
-           git -C /repo diff --cached --quiet || git -C /repo commit -q --amend --no-edit
-           echo "cherry-picked: $subj -> $(git -C /repo rev-parse --short HEAD)";;
+    fix:*) # apply only the src/ part of the commit (builders sometimes commit test-run litter with their fix)
+           git -C "/work/$id/repo" format-patch -1 --stdout "$c" -- src/ | git -C /repo am -q
+           echo "applied: $subj -> $(git -C /repo rev-parse --short HEAD)";;
     *) echo "skipping non-fix commit: $subj";;
   esac
 done
